@@ -37,9 +37,9 @@ func (m *Manager) VerifTable() []VerifLock {
 	}
 	for _, shard := range m.shards {
 		shard.RLock()
-		for name, l := range shard.locks {
+		for _, l := range shard.locks { // the object's own Name field: the map may be keyed by something else
 			l.keyMtx.Lock()
-			out = append(out, VerifLock{Name: name, Size: l.size, Keys: slices.Clone(l.keys), LastAccessed: last(l), Deleted: l.deleted})
+			out = append(out, VerifLock{Name: l.Name, Size: l.size, Keys: slices.Clone(l.keys), LastAccessed: last(l), Deleted: l.deleted})
 			l.keyMtx.Unlock()
 		}
 		shard.RUnlock()
